@@ -152,7 +152,9 @@ def doLoads (cfg : Cfg) (fs : FS) (rec : ParseFn) (stack : List APath) (file spe
           doLoads cfg fs rec stack file spelled ls
             { res with errors := res.errors ++ [{ cls := "InputParsingException", rule := "bad-extern", file := showPath p, pos := default }] } st
 
-/-- own content of a file after its loads: registration, deferred resolution, post-checks -/
+/-- own content of a file after its loads: registration, deferred resolution of the file's own
+    references, post-checks of the file's own declarations (imported ones were resolved and checked
+    by their own nested parser) -/
 def finishFile (cfg : Cfg) (file : APath) (contents : List Content) (res : PResult) (st : PState) :
     Except Abort (PResult × PState) :=
   let env : Env := { file := showPath file, keys := cfg.keys, defaultDeriving := cfg.defaultDeriving }
@@ -160,15 +162,13 @@ def finishFile (cfg : Cfg) (file : APath) (contents : List Content) (res : PResu
   match registerAll st.reg c.regs with
   | .error s => .error (.raised "TypeResolvingException" s.file s.pos)
   | .ok reg =>
-    let refs := res.refs ++ c.refs
-    let units := res.units ++ c.units
-    match resolveLoop reg (st.resolved, []) refs with
+    match resolveLoop reg (st.resolved, []) c.refs with
     | .error site => .error (.crash site)
     | .ok (resolved, rdiags) =>
-      match checkUnits resolved units with
+      match checkUnits resolved c.units with
       | .error site => .error (.crash site)
       | .ok cdiags =>
-        .ok ({ units := units, refs := refs, errors := res.errors ++ c.diags ++ rdiags ++ cdiags },
+        .ok ({ units := res.units ++ c.units, refs := res.refs ++ c.refs, errors := res.errors ++ c.diags ++ rdiags ++ cdiags },
              { st with reg := reg, resolved := resolved })
 
 /-- one `Parser(idl=file).parse()` -/
